@@ -2,6 +2,7 @@ import HpoModel.Proto
 import HpoModel.Num
 import HpoModel.Load
 import HpoModel.Bulk
+import HpoModel.BulkFast
 /-
 Driver state and the core operations of the line protocol: building an ontology through the
 Builder model and dumping the whole read API in canonical form.
@@ -143,7 +144,7 @@ def handle (s : DState) (toks : List String) : Option Out :=
   | ["bulkann", k, first, count, name, t] =>
     match parseKind k, first.toNat?, count.toNat?, parseName name, t.toNat? with
     | some k, some a, some c, some n, some t =>
-      if s.phase ≠ 3 then none else some (fallible s (s.cur.annotateRange k n t a c))
+      if s.phase ≠ 3 then none else some (fallible s (s.cur.annotateRangeFast k n t a c))
     | _, _, _, _, _ => none
   | ["ann", k, id, name, t] =>
     match parseKind k, id.toNat?, parseName name, t.toNat? with
